@@ -123,7 +123,7 @@ package document
 
 // AddImageFromDataWithoutElement: the allocator shared by the body, table-cell and template paths.
 //@ func (*Document).AddImageFromDataWithoutElement
-//@ props C10, C02
+//@ props C10, C02, C04
 //@ requires docParts(d) && mediaFresh(d)
 //@ ensures err == nil && fresh(result0) && docParts(d)
 //@ ensures d.nextImageID == old(d.nextImageID) + 1
@@ -272,8 +272,8 @@ package document
 
 // ---- saving ---------------------------------------------------------------------------------------------------
 // serializeDocumentRelationships rewrites only the relationship part: every media part (and every other part) keeps
-// its bytes, no media name appears. (That the ids written are pairwise different — styles gets rId1 only if the list
-// does not use it — is not observable here: the list goes to xml.MarshalIndent, whose output is unconstrained.)
+// its bytes, no media name appears. The value handed to the marshaller (ghost marshal sequence) is the styles
+// relationship, under an id the list does not use, followed by every relationship of the list, in order, unchanged.
 //@ func (*Document).serializeDocumentRelationships
 //@ props C10, C02, C05, C04, C01
 //@ requires d != nil && d.parts != nil && d.documentRelationships != nil
@@ -282,6 +282,12 @@ package document
 //@ ensures forall k string :: k != "word/_rels/document.xml.rels" ==> has(d.parts, k) == old(has(d.parts, k)) && d.parts[k] == old(d.parts[k])
 //@ ensures forall m map[string][]byte, k string :: m != d.parts ==> (has(m, k) <==> old(has(m, k))) && m[k] == old(m[k])
 //@ ensures freshArr(d.parts["word/_rels/document.xml.rels"])
+//@ ensures marshalCount() <= old(marshalCount()) + 1
+//@ ensures marshalCount() == old(marshalCount()) + 1 ==> typeIs(marshalAt(old(marshalCount())), "*Relationships") && fresh(marshalAt(old(marshalCount())).(*Relationships)) && len(marshalAt(old(marshalCount())).(*Relationships).Relationships) == len(d.documentRelationships.Relationships) + 1
+//@ ensures marshalCount() == old(marshalCount()) + 1 ==> marshalAt(old(marshalCount())).(*Relationships).Relationships[0].Target == "styles.xml" && marshalAt(old(marshalCount())).(*Relationships).Relationships[0].Type == "http://schemas.openxmlformats.org/officeDocument/2006/relationships/styles"
+//@ ensures marshalCount() == old(marshalCount()) + 1 ==> forall k int :: 0 <= k && k < len(d.documentRelationships.Relationships) ==> marshalAt(old(marshalCount())).(*Relationships).Relationships[k+1] == d.documentRelationships.Relationships[k]
+//@ ensures marshalCount() == old(marshalCount()) + 1 ==> forall k int :: 0 <= k && k < len(d.documentRelationships.Relationships) ==> marshalAt(old(marshalCount())).(*Relationships).Relationships[0].ID != d.documentRelationships.Relationships[k].ID
 //@ loop 1
 //@   invariant 0 <= #i && #i <= len(d.documentRelationships.Relationships) && unchangedHeap()
+//@   invariant stylesID == "rId1" && (forall k int :: 0 <= k && k < #i ==> d.documentRelationships.Relationships[k].ID != "rId1")
 //@   decreases len(d.documentRelationships.Relationships) - #i
